@@ -20,6 +20,10 @@ type outputs struct {
 	// holds them; HaveParsed says the reader was consulted at all.
 	Parsed     []ptable
 	HaveParsed bool
+	// Hdr, Ftr: what the format reader answers when the header / footer text is asked
+	// for (HeaderTexts() / FooterTexts()); HaveHF says it was asked.
+	Hdr, Ftr []string
+	HaveHF   bool
 }
 
 // pcell is one cell of a reader's parsed table row. Flag: the reader says the cell
@@ -103,16 +107,26 @@ func (f fails) add(key, format string, a ...interface{}) {
 var oracleKeys = map[string][]string{
 	"docx": {"body-order", "table-after-multipara-table", "inline-order", "hyperlink-text-lost", "ins-text-lost", "sdt-text-lost",
 		"text-lost", "list-item-lost", "heading-level", "style-chain-heading-level", "direct-outline-level", "list-nesting", "grid-cell", "merged-cell", "header-leak",
-		"parsed-grid-shape", "parsed-grid-span", "parsed-grid-continuation"},
+		"header-requested", "parsed-grid-shape", "parsed-grid-span", "parsed-grid-continuation"},
 	"odt": {"body-order", "span-text-order", "inline-element-lost", "link-text-lost", "nested-span-text-lost", "text-lost", "list-item-lost",
-		"heading-level", "style-chain-heading-level", "direct-outline-level", "list-nesting", "grid-cell", "merged-cell", "header-leak",
-		"parsed-grid-shape", "parsed-grid-span", "parsed-grid-continuation"},
+		"heading-level", "style-chain-heading-level", "direct-outline-level", "outline-level-vs-inherited-style-level", "outline-level-vs-own-style-level", "list-nesting", "grid-cell", "merged-cell", "header-leak",
+		"header-requested", "parsed-grid-shape", "parsed-grid-span", "parsed-grid-continuation"},
 }
 
 // headingKey: a heading written in a derived style of the document's style family
 // (its level is what the style's own definition chain says, whichever other styles
 // of the family were used before it) fails under a key of its own.
 func headingKey(p *lpara) string {
+	if p.StyleLevel != 0 && p.StyleOwn {
+		// the heading says its level itself; the style it names carries another default
+		// outline level (or is the built-in heading style of another level)
+		return "outline-level-vs-own-style-level"
+	}
+	if p.StyleLevel != 0 {
+		// the heading says its level itself; only a style ABOVE its own paragraph style
+		// carries another default outline level
+		return "outline-level-vs-inherited-style-level"
+	}
 	if p.Via == "family" {
 		return "style-chain-heading-level"
 	}
@@ -155,10 +169,18 @@ func plainKey(p *lpara, bi int, shared map[string]int) (string, string) {
 
 // chainNote describes the definition chain of a family style for the failure detail.
 func (d *ldoc) chainNote(p *lpara) string {
-	if p.Via != "family" || d.Fam == nil {
-		return ""
-	}
 	var b strings.Builder
+	if p.StyleLevel != 0 {
+		fmt.Fprintf(&b, "; the heading is written <text:h text:outline-level=\"%d\">, the definition chain of its paragraph style says default outline level %d", p.Level, p.StyleLevel)
+		if p.StyleOwn {
+			b.WriteString(" (the style the heading names carries it itself, or is the built-in heading style of that level)")
+		} else {
+			b.WriteString(" (in a style above it only: the style the heading names carries no outline level of its own)")
+		}
+	}
+	if p.Via != "family" || d.Fam == nil {
+		return b.String()
+	}
 	b.WriteString("; definition chain:")
 	for s := d.Fam.get(p.Fam); s != nil; s = d.Fam.get(s.Parent) {
 		switch {
@@ -438,7 +460,43 @@ func evaluate(d *ldoc, out outputs) fails {
 			f.add("header-leak", "Document() contains header/footer token %q", t)
 		}
 	}
+	// ---- "unless requested": asked for, the header and footer text is what the parts say ----
+	// (ODT keeps header and footer in the master page of styles.xml: no styles part, none written)
+	if out.HaveHF && (F == "docx" || d.Styles) {
+		for _, hf := range []struct {
+			what   string
+			lines  []string
+			got    []string
+			others []string
+		}{{"header", d.Header, out.Hdr, d.Footer}, {"footer", d.Footer, out.Ftr, d.Header}} {
+			all := strings.Join(hf.got, "\n")
+			pos := -1
+			for _, t := range hf.lines {
+				k := strings.Index(all, t)
+				switch {
+				case k < 0:
+					f.add("header-requested", "%sTexts(): the %s line %q of the package's %s part is missing; answered %q%s", strings.Title(hf.what), hf.what, t, hf.what, hf.got, d.flavourNote())
+				case k < pos:
+					f.add("header-requested", "%sTexts(): the %s line %q comes before an earlier line of the part; answered %q", strings.Title(hf.what), hf.what, t, hf.got)
+				}
+				pos = max(pos, k)
+			}
+			for _, t := range hf.others {
+				if strings.Contains(all, t) {
+					f.add("header-requested", "%sTexts() holds %q, a line of the other part", strings.Title(hf.what), t)
+				}
+			}
+		}
+	}
 	return f
+}
+
+// flavourNote says how the package spells its namespaces when not the writers' way.
+func (d *ldoc) flavourNote() string {
+	if d.Flavour == "" {
+		return ""
+	}
+	return "; markup flavour of the package: " + d.Flavour
 }
 
 // itemLost: the block is a list item and none of its text - plain text among it, so no
